@@ -12,7 +12,7 @@ ALL_PROPS = ["C01.a", "C01.b", "C02.a", "C02.b", "C03.a", "C03.b", "C03.c", "C03
              "C07.a", "C07.b", "C07.c", "C07.d", "C07.e", "C08.a", "C08.b", "C08.c", "C08.d",
              "C09.a", "C09.b", "C10.a", "C10.b", "C10.c", "C12.a", "C12.b",
              "C13.a", "C13.b", "C13.c", "C15.a", "C15.b", "C15.c", "C16.a", "C16.b", "C16.c",
-             "C17.a", "C17.b", "C17.c", "C17.d", "C17.e", "C17.f", "C18.a"]
+             "C17.a", "C17.b", "C17.c", "C17.d", "C17.e", "C17.f", "C17.g", "C18.a"]
 
 
 def line_of(o):
